@@ -721,6 +721,12 @@ func (m *Mint) GetMeltQuoteState(ctx context.Context, quoteId string) (storage.M
 			meltQuote.PaymentHash, meltQuote.Id)
 
 		paymentStatus, err := m.lightningClient.OutgoingPaymentStatus(ctx, meltQuote.PaymentHash)
+		if errors.Is(err, lightning.OutgoingPaymentNotFound) || status.Code(err) == codes.NotFound {
+			// the backend does not know the payment (e.g the mint stopped before it was sent):
+			// nothing can be in flight, treat it like a failed payment
+			paymentStatus = lightning.PaymentStatus{PaymentStatus: lightning.Failed, PaymentFailureReason: "payment not found"}
+			err = nil
+		}
 		if err != nil {
 			m.logErrorf(`error checking outgoing payment status: %v. Leaving proofs for quote '%v' as pending`,
 				err, meltQuote.Id)
@@ -755,15 +761,15 @@ func (m *Mint) GetMeltQuoteState(ctx context.Context, quoteId string) (storage.M
 			m.logInfof("payment %v failed with error: %v. Setting melt quote '%v' to unpaid and removing proofs from pending",
 				meltQuote.PaymentHash, paymentStatus.PaymentFailureReason, meltQuote.Id)
 
+			_, err = m.removePendingProofsForQuote(meltQuote.Id)
+			if err != nil {
+				errmsg := fmt.Sprintf("error removing pending proofs for quote: %v", err)
+				return storage.MeltQuote{}, cashu.BuildCashuError(errmsg, cashu.DBErrCode)
+			}
 			meltQuote.State = nut05.Unpaid
 			err = m.db.UpdateMeltQuote(meltQuote.Id, "", meltQuote.State)
 			if err != nil {
 				errmsg := fmt.Sprintf("error updating melt quote state: %v", err)
-				return storage.MeltQuote{}, cashu.BuildCashuError(errmsg, cashu.DBErrCode)
-			}
-			_, err = m.removePendingProofsForQuote(meltQuote.Id)
-			if err != nil {
-				errmsg := fmt.Sprintf("error removing pending proofs for quote: %v", err)
 				return storage.MeltQuote{}, cashu.BuildCashuError(errmsg, cashu.DBErrCode)
 			}
 		}
@@ -956,15 +962,18 @@ func (m *Mint) MeltTokens(ctx context.Context, meltTokensRequest nut05.PostMeltB
 				m.logInfof("no outgoing payment found with hash: %v. Removing pending proofs and marking quote '%v' as unpaid",
 					meltQuote.PaymentHash, meltQuote.Id)
 
+				// release the proofs before marking the quote as unpaid: a quote left
+				// PENDING is resolved by the next state check, pending proofs under an
+				// UNPAID quote would be locked forever
+				err = m.db.RemovePendingProofs(Ys)
+				if err != nil {
+					errmsg := fmt.Sprintf("error removing proofs from pending: %v", err)
+					return storage.MeltQuote{}, cashu.BuildCashuError(errmsg, cashu.DBErrCode)
+				}
 				meltQuote.State = nut05.Unpaid
 				err = m.db.UpdateMeltQuote(meltQuote.Id, "", meltQuote.State)
 				if err != nil {
 					errmsg := fmt.Sprintf("error updating melt quote state: %v", err)
-					return storage.MeltQuote{}, cashu.BuildCashuError(errmsg, cashu.DBErrCode)
-				}
-				err = m.db.RemovePendingProofs(Ys)
-				if err != nil {
-					errmsg := fmt.Sprintf("error removing proofs from pending: %v", err)
 					return storage.MeltQuote{}, cashu.BuildCashuError(errmsg, cashu.DBErrCode)
 				}
 				return meltQuote, nil
@@ -982,15 +991,18 @@ func (m *Mint) MeltTokens(ctx context.Context, meltTokensRequest nut05.PostMeltB
 				m.logInfof("payment failed with error: %v. Removing pending proofs and marking quote '%v' as unpaid",
 					paymentStatus.PaymentFailureReason, meltQuote.Id)
 
+				// release the proofs before marking the quote as unpaid: a quote left
+				// PENDING is resolved by the next state check, pending proofs under an
+				// UNPAID quote would be locked forever
+				err = m.db.RemovePendingProofs(Ys)
+				if err != nil {
+					errmsg := fmt.Sprintf("error removing proofs from pending: %v", err)
+					return storage.MeltQuote{}, cashu.BuildCashuError(errmsg, cashu.DBErrCode)
+				}
 				meltQuote.State = nut05.Unpaid
 				err = m.db.UpdateMeltQuote(meltQuote.Id, "", meltQuote.State)
 				if err != nil {
 					errmsg := fmt.Sprintf("error updating melt quote state: %v", err)
-					return storage.MeltQuote{}, cashu.BuildCashuError(errmsg, cashu.DBErrCode)
-				}
-				err = m.db.RemovePendingProofs(Ys)
-				if err != nil {
-					errmsg := fmt.Sprintf("error removing proofs from pending: %v", err)
 					return storage.MeltQuote{}, cashu.BuildCashuError(errmsg, cashu.DBErrCode)
 				}
 				return meltQuote, nil
